@@ -6,7 +6,7 @@
 # usage: confirm_seed.sh <name> [property-id]
 set -u
 N=$1; PROP=${2:-${N%%-*}}
-WT=/tmp/seed/$N; SO=$WT/seed_out
+WT=${SEEDROOT:-/tmp/seed}/$N; SO=$WT/seed_out; DEST=${DESTNAME:-$N}
 [ -f $SO/patch.diff ] || { echo "no patch"; exit 2; }
 cd $WT
 git checkout -q -- . 2>/dev/null
@@ -31,7 +31,7 @@ build_demo
 run_demo $SO/confirm_pristine.log; drc_pristine=$?
 echo "tests_rc=$trc demo_changed_rc=$drc_changed demo_pristine_rc=$drc_pristine"
 if [ $trc = 0 ] && [ $drc_changed != 0 ] && [ $drc_pristine = 0 ]; then
-  D=/verif/seeded/$N; mkdir -p $D
+  D=/verif/seeded/$DEST; mkdir -p $D
   cp $SO/patch.diff $SO/meta.json $D/; cp $SO/demo.* $D/ 2>/dev/null; rm -f $D/demo
   python3 - <<PY
 import json
